@@ -47,7 +47,8 @@ DUP = """    total = compute_initial(items)
     return finish(total)
 """
 A0 = "def first_total(items):\n" + DUP + "\n\ndef check_a(kind):\n    if kind not in (\"alpha\", \"beta\", \"gamma\"):\n        raise ValueError(kind)\n"
-A1 = "def first_total(items):\n    return sum(items)\n"
+# the edit of a.py removes the duplicated block AND puts an inline suppression on the validation line
+A1 = "def first_total(items):\n    return sum(items)\n\n\ndef check_a(kind):\n    if kind not in (\"alpha\", \"beta\", \"gamma\"):  # thailint: ignore[stringly-typed]\n        raise ValueError(kind)\n"
 B0 = "def second_total(items):\n" + DUP
 C0 = "def timeout():\n    print('x')\n    return 3600\n"
 # the edit of c.py adds a file-level suppression to otherwise unchanged code (a.py's edit changes code)
